@@ -78,7 +78,7 @@ func TestReproQuicDefaults(t *testing.T) {
 	q := newQPeer(selfSigned(t), n)
 	defer q.ln.Close()
 	q.resetCase(1, mrand.New(mrand.NewSource(1)))
-	f := q.newFetcher(w)
+	f := &q.newClient(w).Auth.NTSKEFetcher
 	q.setPlan(mscript{Alpn: "ntske/1", Recs: []string{"np", "a15", "ck", "eom"}, Cut: "none"})
 	d, err := f.FetchData(context.Background())
 	fmt.Printf("exchange 1 (NextProto, AEAD 15, Cookie, End): err=%v Server=%q Port=%d\n", err, d.Server, d.Port)
